@@ -63,6 +63,8 @@ inductive Script where
   | cnt        -- number of truthy positional inputs
   | sel        -- named single inputs c, x, y:  x if c else y
   | glen       -- named group g: number of truthy members + number of positional inputs
+  | big        -- 1000 + number of truthy positional inputs: a result that CPython does not intern (every call
+               -- returns a fresh int object; an identity comparison of outputs is visible with this script only)
   deriving Repr, Inhabited, DecidableEq
 
 inductive Fn where
@@ -122,6 +124,7 @@ def calcBlk (b : CBlk) (own : Val) (outC outS : Nat → Val) : Val :=
     let thr : Rat := if own.isUndef then (low + high) / 2 else if own.truthy then low else high
     Val.bool (decide (thr ≤ numOf (pos.headD .undef)))
   | .func .cnt _ => Val.int (countTruthy pos)
+  | .func .big _ => Val.int (1000 + countTruthy pos)
   | .func .sel _ =>
     if (lookupNamed outC outS b.named "c").truthy then lookupNamed outC outS b.named "x"
     else lookupNamed outC outS b.named "y"
